@@ -11,6 +11,9 @@ impl Prop for C07 {
     fn id(&self) -> &'static str {
         "C07"
     }
+    fn fuzz_target(&self) -> Option<&'static str> {
+        Some("fz_choices")
+    }
     fn stream_len(&self, _tier: Tier) -> usize {
         700
     }
